@@ -57,7 +57,7 @@ FORMATS = ["", "plain text", "%%", "100%% sure", "%d", "%i items", "x=%5d;", "%-
 
 def jobs(tier, prefix="C14"):
     J = []
-    L = ["src/Exception.c", "src/Num.c", "stubs/throw.c", "stubs/libc_str.c"]
+    L = ["src/Exception.c", "src/Num.c", "src/String.c", "src/Pointer.c", "src/Iter.c", "stubs/throw.c", "stubs/libc_str.c"]
     fmts = FORMATS if tier == "thorough" else FORMATS
     for n, f in enumerate(fmts):
         variants = [(None, "")]
